@@ -443,7 +443,14 @@ fn main() {
             });
             let fp = if msg.contains("Borrow checker should have caught this") && compiles_without_const_folding
                 && CONFIGS[k].opt != 2 && CONFIGS[k].opt != 3 && us.iter().all(|u| u.text.contains('@'))
-            { "F1-specialized-snapshot-of-undroppable-const" } else { "" };
+            { "F1-specialized-snapshot-of-undroppable-const" }
+            // finding F3: a value dropped inside a branch of a hand-written panic_destruct function gets its
+            // panic_destruct call inserted after the merge.  Recognised by that message and a panic_destruct
+            // body that branches on self (seeded defects with straight-line bodies stay unmasked).
+            else if msg.contains("is used before it is introduced")
+                && us.iter().all(|u| u.text.lines().any(|l| l.contains("fn panic_destruct(self") && l.contains("match self")
+                    || u.text.contains("nopanic {\n        match self")))
+            { "F3-drop-in-branch-of-panic-destruct-fn" } else { "" };
             failures.push(json!({"kind": "error_free_program_does_not_compile", "why": format!("stage {stage}: {msg}"), "fingerprint": fp,
                 "config": CONFIGS[k].name, "unit": us.iter().map(|u| u.name.clone()).collect::<Vec<_>>(),
                 "origin": us.iter().map(|u| u.origin.clone()).collect::<Vec<_>>(),
